@@ -621,20 +621,49 @@ def check_json(ctx):
     rets = [p for p in tj.paths if p.outcome.kind == 'return'
             and p.outcome.expr is not None]
     ok = False
+    raw = False
+
+    def dumped(h, what):
+        """hole h is <JSON serializer>(default.<what>)"""
+        n = getattr(h, 'node', None)
+        return isinstance(h, Hole) and isinstance(n, ast.Call) and (
+            prog.resolve(fj.module, n.func) or '').endswith(
+                ('jsonutils.dumps', 'json.dumps')) and len(
+                    n.args) == 1 and U(n.args[0]) == 'default.' + what \
+            and not any(k.arg in ('indent', 'separators')
+                        for k in n.keywords)
     if len(rets) == 1 and len(tj.paths) == 1:
         try:
             segs = merge(segments(_own_printed_form(
                 prog, fj, tj.expand(rets[0].outcome.expr))))
             shape = [(type(s).__name__, getattr(s, 'text', None)
                       or getattr(s, 'source', None)) for s in segs]
-            ok = shape == [('Lit', '"'), ('Hole', 'default.name'),
-                           ('Lit', '": "'), ('Hole', 'default.check_str'),
-                           ('Lit', '"')]
+            raw = shape == [('Lit', '"'), ('Hole', 'default.name'),
+                            ('Lit', '": "'), ('Hole', 'default.check_str'),
+                            ('Lit', '"')]
+            # the value as a JSON scalar; the name likewise, or between
+            # quotes (registered names are free of quotes and backslashes)
+            if len(segs) == 3 and dumped(segs[0], 'name') and isinstance(
+                    segs[1], Lit) and segs[1].text.strip() == ':' and \
+                    dumped(segs[2], 'check_str'):
+                ok = True
+            if len(segs) == 4 and shape[:2] == [
+                    ('Lit', '"'), ('Hole', 'default.name')] and isinstance(
+                        segs[2], Lit) and segs[2].text.strip() == '":' and \
+                    dumped(segs[3], 'check_str'):
+                ok = True
         except Unknown:
             ok = False
     ctx.ob('C17.JSON', ok, ctx.where(fj.module, fj.node), fj.qual,
-           'JSON member', 'a member `"name": "check_str"`' if ok else
-           'the JSON member is not `"name": "check_str"` of the default')
+           'JSON member', 'a member `"name": <check_str as a JSON scalar>`'
+           if ok else (
+               'the check string is pasted between double quotes: a TAB in '
+               'it (white space of the rule language, e.g. '
+               '`role:x\\tor role:y`; the quantifier excludes only quotes, '
+               'backslashes and line breaks) makes the JSON sample invalid '
+               'JSON' if raw else
+               'the JSON member is not `"name": "check_str"` of the default'),
+           witness={'check_str': 'role:x\tor role:y'} if raw else None)
     inner = prog.func(GEN + '._generate_sample')
     from ..dte import inline_helpers
     sec = prog.func(GEN + '._sort_and_format_by_section')
